@@ -141,4 +141,4 @@ def run(cx):
         inloop = [b for b in pb if any(b in c for c in loops)]
         cx.add('L-LEN64', 'pad/fill-loop', zero == inloop and len(zero) == 1, 'only the zero fill is inside the loop; 0x80 and the 8 length bytes are appended once', pd.loc())
         fill = [p for _, p, _, _ in G.bool_switches(pd, P) if p.kind == 'eq' and cn.c(p.args[0]).startswith('Rem(len(') and const_int(p.args[1]) == 56]
-        cx.add('L-LEN64', 'pad/fill-exit', len(fill) == 1 and 'Rem(len($msg), 64)' in cn.c(fill[0].args[0]), 'zero fill stops exactly when length = 56 mod 64', pd.loc())
+        cx.add('L-LEN64', 'pad/fill-exit', len(fill) == 1 and cn.c(fill[0].args[0]) in ('Rem(len($msg), 64)', 'Rem(len([$msg, byte(128), LOOP(byte:0)]), 64)'), 'zero fill stops exactly when length = 56 mod 64', pd.loc())
